@@ -41,30 +41,32 @@ Definition op_of_code (b : Z) : option op :=
   end.
 
 (* spec_op is evaluated directly except for EXP with an exponent above 8 (Z.pow on unary-iterated
-   binary positives takes minutes for a 255-th power of a dense word); op_correct covers that case. *)
+   binary positives takes minutes for a 255-th power of a dense word) and for shifts by 600 or more (the
+   specification's 2 ^ x does not fit in memory); op_correct covers those cases. *)
 Definition spec_agrees (o : op) (x y z r : Z) : bool :=
   match o with
   | EXP => if y <? 9 then spec_op o x y z =? r else true
+  | SHL | SHR | SAR => if x <? 600 then spec_op o x y z =? r else true   (* 2 ^ x is materialised by the specification *)
   | _ => spec_op o x y z =? r
   end.
 
 (* bit vector of codeBitmap as bytes, MSB first *)
 Definition pack_byte (f : bitfn) (j : Z) : Z :=
   fold_left (fun acc b => acc * 2 + b2z (f (8 * j + Z.of_nat b))) (seq 0 8) 0.
-Definition bitmap_bytes (c : code) : list Z :=
-  let f := code_bitmap c in
+Definition bitmap_bytes_of (f : bitfn) (c : code) : list Z :=
   map (fun j => pack_byte f (Z.of_nat j)) (seq 0 (Z.to_nat (clen c / 8 + 1 + 4))).
 
-(* decidable instruction-boundary test (walk from 0) used for the specification side *)
-Fixpoint boundary_from (fuel : nat) (c : code) (p d : Z) : bool :=
-  if p =? d then true
-  else if d <? p then false
-  else match fuel with
-       | O => false
-       | S k => if p <? clen c then boundary_from k c (p + 1 + push_len (cnth c p)) d else false
-       end.
-Definition spec_jumpdest (c : code) (d : Z) : bool :=
-  (d <? clen c) && (cnth c d =? 91) && boundary_from (List.length c) c 0 d.
+(* specification side, written independently of the bit vector: one pass over the code that marks
+   every instruction start (skip = number of push-data bytes still to pass) *)
+Fixpoint starts (l : list Z) (skip : Z) : list bool :=
+  match l with
+  | [] => []
+  | b :: r => if 0 <? skip then false :: starts r (skip - 1) else true :: starts r (push_len b)
+  end.
+Definition spec_jumpdest_tbl (c : code) : Z -> bool :=
+  let st := starts c 0 in
+  let n := clen c in
+  fun d => (0 <=? d) && (d <? n) && (cnth c d =? 91) && nth (Z.to_nat d) st false.
 
 Inductive ccase :=
 | COp (opcode x y z : Z) (result : Z)
@@ -86,9 +88,11 @@ Definition check (P : params) (cs : ccase) : bool :=
       obs_eqb o obs && (maxh <=? 1024)
   | CJump code bm dests =>
       let c := zbytes code in
-      zlist_eqb (bitmap_bytes c) (zbytes bm)
-      && forallb (fun dv => Bool.eqb (valid_jumpdest c (fst dv)) (snd dv)
-                            && Bool.eqb (spec_jumpdest c (fst dv)) (snd dv)) dests
+      let f := code_bitmap c in
+      let jd := jd_cached c in               (* = valid_jumpdest c (Fast.jd_cached_eq) *)
+      let sj := spec_jumpdest_tbl c in
+      zlist_eqb (bitmap_bytes_of f c) (zbytes bm)
+      && forallb (fun dv => Bool.eqb (jd (fst dv)) (snd dv) && Bool.eqb (sj (fst dv)) (snd dv)) dests
   end.
 
 Definition R (d : bool) (g mn mx : Z) : row := mkRow d g mn mx.
